@@ -107,9 +107,10 @@ def rule_bookkeeping(ctx):
         newval, newaxes = cons[2]
         nd = [pol for a, pol in p.guards if 'ndim' in T.show(a)]
         if newval[0] == 'call' and T.call_name(newval) == '_numpy_interp':
-            want = ('call', ('name', '_numpy_interp'), (('attr', newaxis, 'values'), ('attr', ('sub', ('attr', obj, 'axes'), AXIS), 'values'), ('attr', obj, 'values')),
-                    (('left', LEFT), ('right', RIGHT)))
-            if newval != want:
+            # arguments compared by parameter, so that positional and keyword spellings of the internal call read the same
+            b = bind_call_args(newval, ctx.fn(TR + '_numpy_interp'))
+            want_b = {'x': ('attr', newaxis, 'values'), 'xp': ('attr', ('sub', ('attr', obj, 'axes'), AXIS), 'values'), 'yp': ('attr', obj, 'values'), 'left': LEFT, 'right': RIGHT}
+            if b != want_b:
                 ctx.violated('R3' if 'left' not in T.show(newval) or 'right' not in T.show(newval) else 'R2', fi, 'newval = ' + T.show(newval)[:160],
                              '1-D: np.interp(new labels, old labels, values, left=left, right=right)', node=p.node)
                 continue
@@ -120,8 +121,12 @@ def rule_bookkeeping(ctx):
             ctx.holds('R3', 'left/right reach np.interp')
         elif newval[0] == 'call' and T.call_name(newval) == '_interp_internal_from_weight':
             w = ('call', ('name', '_interp_internal_get_weights'), (('attr', ('sub', ('attr', obj, 'axes'), AXIS), 'values'), ('attr', newaxis, 'values')), ())
-            kws = dict(newval[3])
-            if newval[2] != (('attr', obj, 'values'),) or kws.get('axis') != pos or kws.get('**') != w:
+            kws = bind_call_args(newval, ctx.fn(TR + '_interp_internal_from_weight'))
+            # the weights either as **w or item by item (lhs_idx=w['lhs_idx'], ...)
+            wkeys = ('lhs_idx', 'rhs_idx', 'frac', 'left_idx', 'right_idx')
+            if '**' not in kws and all(kws.get(k) == ('sub', w, const(k)) for k in wkeys):
+                kws['**'] = w
+            if kws.get('arr') != ('attr', obj, 'values') or kws.get('axis') != pos or kws.get('**') != w:
                 ctx.violated('R2', fi, 'newval = ' + T.show(newval)[:160], 'N-d: weights computed once from (old labels, new labels) and applied along the position '
                              'resolved from `axis`', node=p.node)
                 continue
@@ -161,12 +166,9 @@ def rule_bookkeeping(ctx):
             ctx.violated('R3', il, e.node, 'each dimension must be interpolated starting from the result of the previous one (obj = obj.interp_axis(...)); every iteration '
                          'restarts from %s, so only the last shared dimension ends up interpolated' % T.show(recv)[:60], node=e.node)
             continue
-        ax = None
-        for x in T.subterms(c):
-            if x[0] == 'elem' and x[1] == ('attr', SELF, 'axes'):
-                ax = x
-        nm = ('attr', ax, 'name') if ax else None
-        if ax is None or T.kw(c, 'axis') != nm or (c[2][0] if c[2] else None) != ('attr', ('sub', ('attr', OTHER, 'axes'), nm), 'values') \
+        from .c07 import own_shared_dim
+        nm = T.kw(c, 'axis')
+        if nm is None or own_shared_dim(nm, e) != 'ok' or (c[2][0] if c[2] else None) != ('attr', ('sub', ('attr', OTHER, 'axes'), nm), 'values') \
                 or dict(c[3]).get('**') != P_('**kwargs'):
             ctx.violated('R3', il, e.node, 'labels and axis= must refer to the same dimension name, keywords forwarded', node=e.node)
             continue
